@@ -370,7 +370,7 @@ def _run(res, tier, seed, proofs_ok, cov):
             meta.append((deck_text, args, conv.exc, verdict, made[1]))
 
     # ---- 2 + 3. generated decks: sweep and tie on the same runs ----
-    n_decks = 170 if tier == 'quick' else 1500
+    n_decks = 170 if tier == 'quick' else 1200
     for i in range(n_decks):
         dk, tags = gen.gen_deck(rng)
         deck_text = gen.render(dk)
